@@ -96,11 +96,11 @@ theorem t4InOf_capNov : (t4InOf w c s t o).capNov = c.capNov := rfl
 theorem t1Run_nil (c1 : Clem.T1.Cfg α) (gs : List (Clem.T1.Graph α)) (text : Str) :
     t1Run c1 gs text [] = Clem.T1.t1 c1 gs text := by
   unfold t1Run Clem.T1.t1 t1Pre
-  have : (gs.filterMap fun g => (([] : List ((Nat × List Nat) × Clem.T1.GRes α)).find?
+  have : (gs.flatMap fun g => (([] : List ((Nat × List Nat) × Clem.T1.GRes α)).filter
       (fun e => e.1 == (g.gid, seedKey g text))).map (fun e => (g.gid, e.2))) = [] := by
     induction gs with
     | nil => rfl
-    | cons g gs ih => simp [List.filterMap_cons, ih]
+    | cons g gs ih => simp [List.flatMap_cons, ih]
   rw [this]
   split <;> rfl
 
